@@ -27,8 +27,8 @@ META = dict(
                   "recorders and shims of harness/drivers/pipeline_driver.py (time() marks, base-class hook loggers)",
                   "asyncio.wait_for / thread-pool behaviour as modelled by body_run (exercised, not verified)"],
     assumptions=["an ack callback that itself raises is outside the property",
-                 "duration = timeout (timer tie) and sync body under timeout <= 0 (thread race) are environment choices "
-                 "(c_tie, c_race) in the theorems and are not generated by the driver"],
+                 "duration = timeout (timer tie, c_tie) is an environment choice in the theorems and is not generated; the "
+                 "thread race of a sync body under timeout <= 0 (c_race) is exercised through scripted eager / lazy executors"],
 )
 
 
@@ -48,7 +48,7 @@ def run(ctx):
     rep.add_obligations(C.proof_obligations("C02"))
     L.explore(ctx, rep, "C02", L.load_corpus_cases("C02"), "corpus", ORACLES, nontrivial)
     r = ctx.sub_rng("gen")
-    broken = L.explore(ctx, rep, "C02", [L.gen_recv(r, "c02") for _ in range(ctx.n(900, 30000))], "main", ORACLES,
+    broken = L.explore(ctx, rep, "C02", [L.gen_recv(r, "c02") for _ in range(ctx.n(900, 20000))], "main", ORACLES,
                        nontrivial)
     if (broken or any(not o["ok"] for o in rep.obligations)) and not rep.failures:
         r2 = ctx.sub_rng("search")
